@@ -114,6 +114,7 @@ def run_gen_tables() -> list[str]:
         env=env, capture_output=True, text=True)
     if p.returncode != 0:
         raise RuntimeError("gen_tables failed:\n" + p.stdout + p.stderr)
+    subprocess.run([sys.executable, str(VERIF / "tools" / "gen_main.py")], check=True, capture_output=True)
     return [l.split(" ", 1)[1] for l in p.stdout.splitlines() if l.startswith("CHANGED ")]
 
 
